@@ -138,6 +138,9 @@ def by_name(descs, name):
     raise HarnessError("no field %r" % name)
 
 
+_memo = {}          # (id(field description), value) -> reference octets / decoded value; cleared per program
+
+
 def r_pack_field(descs, f, vals):
     t = f["t"]
     if t == "int":
@@ -146,7 +149,11 @@ def r_pack_field(descs, f, vals):
             v = len(vals[tgt]) if kind == "len" else len(r_pack_field(descs, by_name(descs, tgt), vals))
         else:
             v = vals[f["n"]]
-        return r_int_enc(f, v)
+        k = (id(f), v)
+        b = _memo.get(k)
+        if b is None:
+            b = _memo[k] = r_int_enc(f, v)
+        return b
     if t == "buf":
         b = vals[f["n"]]
         if not isinstance(b, (bytes, bytearray)):
@@ -157,7 +164,11 @@ def r_pack_field(descs, f, vals):
     if t == "spare":
         return bytes([f.get("fill", 0)]) * f["len"]
     if t == "bits":
-        return r_bits_enc(f, vals)
+        k = (id(f), tuple([vals[p[0]] for p in f["parts"] if p[0] is not None and p[2] is None]))
+        b = _memo.get(k)
+        if b is None:
+            b = _memo[k] = r_bits_enc(f, vals)
+        return b
     if t == "env":
         b = r_pack(f["fields"], vals[f["n"]])
         if f.get("len") and len(b) != f["len"]:
@@ -199,11 +210,21 @@ def r_unpack(descs, data, check_len):
         chunk = data[off:off + n]
         off += n
         if t == "int":
-            vals[f["n"]] = r_int_dec(f, chunk)
+            k = (id(f), chunk)
+            v = _memo.get(k)
+            if v is None:
+                v = _memo[k] = r_int_dec(f, chunk)
+            vals[f["n"]] = v
         elif t == "buf":
             vals[f["n"]] = bytes(chunk)
         elif t == "bits":
-            r_bits_dec(f, chunk, vals)
+            k = (id(f), chunk)
+            v = _memo.get(k)
+            if v is None:
+                v = {}
+                r_bits_dec(f, chunk, v)            # raises RefErr on a fixed-value mismatch (not memoised)
+                _memo[k] = v
+            vals.update(v)
         elif t == "env":
             vals[f["n"]] = r_unpack(f["fields"], chunk, True)[0]
         elif t == "seq":
@@ -687,6 +708,7 @@ class Judge:
         return "definition %s" % (self.prog,)
 
     def run(self):
+        _memo.clear()
         descs = make_desc(self.prog)
         if descs is None:
             raise HarnessError("ill-formed program generated: %r" % (self.prog,))
@@ -893,6 +915,7 @@ class Judge:
         """top-level bit-field sets: fixed-part bit flips, spare / padding bits set, over-wide values"""
         ref = r_pack(self.descs, pv)
         exp = r_unpack(self.descs, ref, True)[0]
+        flags = set(f["opt"] for f in self.descs if "opt" in f)
         pos = 0
         for f, seg in segments(self.descs, pv):
             start = pos
@@ -928,6 +951,8 @@ class Judge:
                         self.cov["fixed_flips"] += 1
                         self.cov["error_cases"] += 1
                         self.compare_decode(self.E, True, data, "fixed-mismatch", f.get("kind", "bits"))
+                elif name in flags:
+                    continue        # the definition's own get_pres callback looks at the supplied (untruncated) value
                 else:
                     hi = (1 << bl) - 1
                     for wide in (hi + 1, (hi + 1) | pattern(bl), (1 << (bl + 3)) - 1, (1 << 40) | 1, (hi + 1) * 3 + hi):
@@ -998,25 +1023,36 @@ def env_programs(maxlen, menu=ENV_ATOMS):
 
 
 def bfs_programs(quick):
+    """quick   : 8 bits - every composition, 4 order spellings, every variant; 16/24/32 bits - compositions into
+                 <= 3 parts with every variant, 16 bits into 4 parts plain only.
+       thorough: 16 bits into <= 4 parts with every variant; 24/32 bits into <= 4 parts, the 4-part ones with the
+                 spare / fixed part at the first or last position only."""
     for total in (8, 16, 24, 32):
-        maxparts = 8 if total == 8 else (4 if (total == 16 or not quick) else 3)
-        for widths in compositions(total, maxparts):
+        for widths in compositions(total, 8 if total == 8 else 4):
+            k = len(widths)
             for order in ("msb", "lsb") + (("default", "little") if total == 8 else ()):
+                if quick and total > 8 and k == 4:
+                    if total == 16:
+                        yield ["bfs", total, widths, order, "plain", 0]
+                    continue
                 yield ["bfs", total, widths, order, "plain", 0]
                 yield ["bfs", total, widths, order, "pad", 0]
-                if len(widths) >= 2:
+                if k >= 2:
                     yield ["bfs", total, widths, order, "droplast", 0]
-                    for i in range(len(widths)):
+                    positions = range(k) if (total <= 16 or k < 4) else (0, k - 1)
+                    for i in positions:
                         yield ["bfs", total, widths, order, "spare", i]
                         yield ["bfs", total, widths, order, "fixed", i]
                     if total <= 16:
-                        for i in range(len(widths)):
+                        for i in range(k):
                             yield ["bfs", total, widths, order, "fixed0", i]
 
 
-def nest_programs(quick):
-    menu = NEST_MENU[:3] if quick else NEST_MENU
-    posts = [None, "U8"] if quick else [None, "U8", "I16BE"]
+def nest_programs(quick, small=True):
+    """(program, boundary set size): depth 2 with {min, pattern, max}; depth 3 over the 3-atom level menu with
+    {min, max} (quick) / {min, pattern, max} (thorough), and in thorough over the 5-atom menu with {min, max}."""
+    menu = NEST_MENU[:3] if small else NEST_MENU
+    posts = [None, "U8"] if small else [None, "U8", "I16BE"]
     inner_b = [None] + menu + ["BufFlex"]
 
     def level_opts():
@@ -1080,8 +1116,14 @@ def all_programs(quick):
             progs.append((["env", list(kinds)], 3))
     for p in bfs_programs(quick):
         progs.append((p, 5))
-    for p in nest_programs(quick):
-        progs.append((p, 3))
+    seen = set()
+    for p in nest_programs(quick, small=True):
+        seen.add(repr(p))
+        progs.append((p, 3 if (len(p[1]) == 1 or not quick) else 2))
+    if not quick:
+        for p in nest_programs(quick, small=False):
+            if repr(p) not in seen:
+                progs.append((p, 3 if len(p[1]) == 1 else 2))
     for p in seq_programs(quick):
         progs.append((p, 5))
     return progs
@@ -1113,7 +1155,7 @@ def cost(p):
     if prog[0] == "bfs":
         return 5 ** min(len(prog[2]), 4)
     if prog[0] == "nest":
-        return 3 ** (2 * len(prog[1]) + 2)
+        return size ** (2 * len(prog[1]) + 2) * 2
     return 800
 
 
